@@ -12,6 +12,11 @@ CHECKS = {
    text="All reachable states of the real health machine (server.New + real healthCheckLoop goroutine compiled against a virtual clock) for N in {1,2,3,default}, 1-2 tokens x {ok,error,timeout}, elapsed-time steps on and just past the 3-interval threshold, disable flag; GET /health through the real handler is compared with the reference predicate in every state; Close (twice) at every transition target must end the loop goroutine and stop pings. BFS runs to fixpoint in the quick tier.",
    note="Trusted: vtime shim (virtual clock/timers), scripted token, reference predicate. Goroutine exit is observed by polling runtime.Stack (10 s bound). Thorough adds off-grid time deltas in one depth-bounded (7) configuration, reported as not exhaustive.",
    ref="4/C20"),
+ "C04": dict(level="model_checking", engine="E3 explicit enumeration of configuration x request on the real http.Handler",
+   technique="explicit-state exhaustive enumeration of (configuration, request) pairs on the real server handler with counting scripted tokens, against a reference authorization model",
+   text="~1.6k configurations (fingerprint / CA clients x role sets; real, hidden, alias, dangling-alias, alias-of-alias, token-less keys; trusted-proxy lists) x ~2.7k requests (endpoint x key x peer address x TLS chain x X-Forwarded-For x Ssl-Client-Cert) = 4.3M real handler calls in the quick tier, each judged by a reference function written from the statement: status class, zero token touches on refusal, exact listings, recorded client name and address; plus malformed configurations and the bearer/policy authenticator with 9 scripted policy replies.",
+   note="Trusted: the reference function in cmd/c04, scripted token type 'verif' (relic's public opener registry), httptest. Map-order ambiguity (certificate matching several CA clients) is accepted either way. OPA itself is scripted through http.DefaultTransport.",
+   ref="4/C04"),
 }
 NOT_YET = {}
 ALL = ["C%02d" % i for i in range(1, 21)]
